@@ -123,36 +123,6 @@ theorem rtp_reparse (r : Rtp) (hi : r.Inv) (hc : r.Canon) (pl : Bytes) :
 
 /-! ### what the parser produces is representable -/
 
-theorem beNat_foldl_lt (bs : Bytes) (acc : Nat) :
-    bs.foldl (fun a b => a * 256 + b.toNat) acc < (acc + 1) * 256 ^ bs.length := by
-  induction bs generalizing acc with
-  | nil => simp
-  | cons b bs ih =>
-    simp only [List.foldl_cons, List.length_cons]
-    have h1 := ih (acc * 256 + b.toNat)
-    have hb := b.toNat_lt
-    have h2 : (acc * 256 + b.toNat + 1) * 256 ^ bs.length ≤ ((acc + 1) * 256) * 256 ^ bs.length :=
-      Nat.mul_le_mul_right _ (by omega)
-    calc _ < (acc * 256 + b.toNat + 1) * 256 ^ bs.length := h1
-      _ ≤ ((acc + 1) * 256) * 256 ^ bs.length := h2
-      _ = (acc + 1) * 256 ^ (bs.length + 1) := by rw [Nat.mul_assoc, Nat.pow_succ, Nat.mul_comm 256]
-
-/-- an `n`-byte big-endian value is below `256^n` -/
-theorem beNat_lt (bs : Bytes) : Cursor.beNat bs < 256 ^ bs.length := by
-  have := beNat_foldl_lt bs 0
-  simpa [Cursor.beNat] using this
-
-theorem readBE_lt (c : Cursor) (n v : Nat) (c' : Cursor) (hi : c.Inv) (h : c.readBE n = .ok (v, c')) : v < 256 ^ n := by
-  rcases readBE_safe c n hi with ⟨v2, c2, e, _, _, hn, _, hv⟩ | ⟨e, _⟩
-  · rw [e] at h; injection h with h; injection h with h _; subst h
-    rw [hv]
-    have := beNat_lt (c.mem.take n)
-    have hl : (c.mem.take n).length = n := by
-      have : c.size ≤ c.mem.length := hi
-      simp only [List.length_take]; omega
-    rwa [hl] at this
-  · rw [e] at h; cases h
-
 theorem readWords_bound (n : Nat) (c : Cursor) (hi : c.Inv) (ws : List Nat) (c' : Cursor)
     (h : Rtp.readWords n c = .ok (ws, c')) : ∀ w ∈ ws, w < 4294967296 := by
   induction n generalizing c ws c' with
